@@ -472,17 +472,22 @@ def _add_glyph(svg: SVG, color_glyph: ColorGlyph, reuse_cache: ReuseCache):
     upem_to_vbox = vbox_to_upem.inverse()
 
     # copy the shapes into our svg
+    # keyed by object identity: sibling groups can be equal by value
+    def _path_key(path):
+        return tuple(id(paint) for paint in path)
+
     el_by_path = {(): svg_g}
     complete_paths = set()
     nth_paint_glyph = 0
 
     for root in color_glyph.painted_layers:
         for context in root.breadth_first():
-            if any(c == context.path[: len(c)] for c in complete_paths):
+            context_key = _path_key(context.path)
+            if any(c == context_key[: len(c)] for c in complete_paths):
                 continue
 
             parent_el = svg_g
-            path = context.path
+            path = context_key
             while path:
                 if path in el_by_path:
                     parent_el = el_by_path[path]
@@ -563,7 +568,7 @@ def _add_glyph(svg: SVG, color_glyph: ColorGlyph, reuse_cache: ReuseCache):
                     parent_el.append(el)  # pytype: disable=attribute-error
 
                 # don't update el_by_path because we're declaring this path complete
-                complete_paths.add(context.path + (context.paint,))
+                complete_paths.add(context_key + (id(context.paint),))
                 nth_paint_glyph += 1
 
             elif isinstance(context.paint, PaintColrLayers):
@@ -574,7 +579,7 @@ def _add_glyph(svg: SVG, color_glyph: ColorGlyph, reuse_cache: ReuseCache):
 
             elif _is_svg_supported_composite(context.paint):
                 el = etree.SubElement(parent_el, f"{{{svg_meta.svgns()}}}g")
-                el_by_path[context.path + (context.paint,)] = el
+                el_by_path[context_key + (id(context.paint),)] = el
 
             # TODO: support transform types, either by introducing <g> or by applying context.transform to Paint
 
